@@ -15,6 +15,7 @@ package throttler
 //     model must accept; reads before the deadline must agree exactly.
 
 import (
+	"hash/fnv"
 	"context"
 	"fmt"
 	"strings"
@@ -123,7 +124,7 @@ func c36SeqA(rep *vfReport, ds []time.Duration, rate int, idle time.Duration, op
 			rep.Fail("getdelay-not-table-entry", fmt.Sprintf("table %v level %d: GetDelay %v", ds, l, g), replay())
 		}
 	}
-	rep.Case(strings.Join(ops, ";"), sawPos && sawClamp)
+	rep.Case(c36Key(ops), sawPos && sawClamp)
 	return
 }
 
@@ -133,13 +134,13 @@ type c36DelayCase struct {
 }
 
 func TestVerifC36(t *testing.T) {
-	rep := vfNewReport("C36", "A: generated delay tables (0-6 entries incl. empty, zero and negative durations), release rates -2..9, idle timeout 0 or 1h, sequences of 5-60 Signal/Release/Reset/Level/GetDelay ops, non-trivial when the level became positive and a Signal or Release was clamped; B: Delay at every table level x context {none, already cancelled, 10ms deadline, 5s deadline}; C: real idle timers (100-160 ms) with re-arming touches, reads before the deadline and the observed reset")
+	rep := vfNewReport("C36", "A: generated delay tables (0-6 entries incl. empty, zero and negative durations), release rates -2..9, idle timeout 0 or 1h, sequences of 5-60 Signal/Release/Reset/Level/GetDelay ops, non-trivial when the level became positive and a Signal or Release was clamped; B: Delay at every table level x context {none, already cancelled, 10ms deadline, 5s deadline, cancelled 10 ms into the delay without / with a far (60 s) deadline}; C: real idle timers (100-160 ms) with re-arming touches, reads before the deadline and the observed reset")
 	defer rep.Write()
 	r := vfNewRng(36)
 	var allOps, allImpl [][]string
 
 	// ---- A: untimed sequences ------------------------------------------------
-	nA := vfScale(1500, 60000)
+	nA := vfScale(1500, 250000)
 	kinds := []string{"signal", "signal", "signal", "release", "release", "reset", "level", "getdelay"}
 	for i := 0; i < nA; i++ {
 		ds := c36Table(r)
@@ -163,6 +164,10 @@ func TestVerifC36(t *testing.T) {
 		ops, out := c36SeqA(rep, ds, rate, idle, seq)
 		allOps = append(allOps, ops)
 		allImpl = append(allImpl, out)
+		if len(allOps) >= 4000 { // bound memory in the thorough tier: compare in chunks
+			rep.vfCompareSegments("throttler", allOps, allImpl)
+			allOps, allImpl = nil, nil
+		}
 		rep.Count(fmt.Sprintf("A:table-len=%d", len(ds)))
 		if rate < 1 {
 			rep.Count("A:rate<1")
@@ -176,15 +181,18 @@ func TestVerifC36(t *testing.T) {
 	tableB := []time.Duration{0, 3 * time.Millisecond, 8 * time.Millisecond, 2 * time.Second, 5 * time.Second}
 	var casesB []c36DelayCase
 	for lvl := range tableB {
-		for _, k := range []string{"none", "cancelled", "short", "long"} {
+		for _, k := range []string{"none", "cancelled", "short", "long", "cancel-midway", "far-deadline-cancel-midway"} {
 			d := tableB[lvl]
 			if d >= time.Second && (k == "none" || k == "long") {
 				continue // would really block for seconds; the timer path is covered by the small entries
 			}
+			if d < time.Second && (k == "cancel-midway" || k == "far-deadline-cancel-midway") {
+				continue // explicit cancellation 10 ms into a multi-second delay only
+			}
 			casesB = append(casesB, c36DelayCase{lvl, k})
 		}
 	}
-	reps := vfScale(2, 20)
+	reps := vfScale(2, 60)
 	var mu sync.Mutex
 	var wg sync.WaitGroup
 	tol := 1500 * time.Millisecond
@@ -217,6 +225,21 @@ func TestVerifC36(t *testing.T) {
 				case "long":
 					ctx, cancel = context.WithTimeout(ctx, 5*time.Second)
 					ctxTok, ctxLeft = "5000000000", 5*time.Second
+				case "cancel-midway":
+					// no deadline; the caller gives up (cancel func) 10 ms into the delay
+					ctx, cancel = context.WithCancel(ctx)
+					time.AfterFunc(10*time.Millisecond, cancel)
+					ctxTok, ctxLeft = "10000000", 10*time.Millisecond
+				case "far-deadline-cancel-midway":
+					// a deadline far beyond the delay (request timeout), but the caller goes away
+					// (explicit cancellation) 10 ms into the delay: the context ENDS after 10 ms
+					var c2 context.CancelFunc
+					ctx, c2 = context.WithTimeout(ctx, 60*time.Second)
+					inner, c3 := context.WithCancel(ctx)
+					ctx = inner
+					cancel = func() { c3(); c2() }
+					time.AfterFunc(10*time.Millisecond, c3)
+					ctxTok, ctxLeft = "10000000", 10*time.Millisecond
 				}
 				defer cancel()
 				t0 := time.Now()
@@ -271,7 +294,7 @@ func TestVerifC36(t *testing.T) {
 	}
 
 	// ---- C: idle timer ----------------------------------------------------------
-	nC := vfScale(12, 200)
+	nC := vfScale(12, 1500)
 	par := 6
 	sem := make(chan struct{}, par)
 	for i := 0; i < nC; i++ {
@@ -394,4 +417,14 @@ func TestVerifC36(t *testing.T) {
 	wg.Wait()
 
 	rep.vfCompareSegments("throttler", allOps, allImpl)
+}
+
+// c36Key identifies an op sequence by a 64-bit hash (keeps the distinct-case set small).
+func c36Key(ops []string) string {
+	h := fnv.New64a()
+	for _, o := range ops {
+		h.Write([]byte(o))
+		h.Write([]byte{'\n'})
+	}
+	return fmt.Sprintf("%016x", h.Sum64())
 }
